@@ -192,7 +192,8 @@ pub fn gen_history(rng: &mut Rng) -> (Vec<Op>, &'static str) {
 }
 
 fn gen_history0(rng: &mut Rng) -> (Vec<Op>, &'static str) {
-    let stream = match rng.below(24) {
+    let stream = match rng.below(25) {
+        24 => "sumxor",
         23 => "symred4",
         22 => "fcapture",
         21 => "latered2",
@@ -232,9 +233,10 @@ fn gen_history0(rng: &mut Rng) -> (Vec<Op>, &'static str) {
     if stream == "inherit" || stream == "symred" || stream == "deepsym" || stream == "upmerge" {
         return (gen_structured(rng, stream), stream);
     }
-    if stream == "tripledep" || stream == "collapse" || stream == "shadow" || stream == "migrate" || stream == "fcapture" || stream == "symred4" {
+    if stream == "tripledep" || stream == "collapse" || stream == "shadow" || stream == "migrate" || stream == "fcapture" || stream == "symred4" || stream == "sumxor" {
         let raw = match stream {
             "tripledep" => gen_tripledep(rng),
+            "sumxor" => gen_sumxor(rng),
             "symred4" => gen_symred4(rng),
             "fcapture" => gen_fcapture(rng),
             "migrate" => gen_migrate(rng),
@@ -491,6 +493,27 @@ pub fn gen_collapse(rng: &mut Rng) -> Vec<Op> {
     } else {
         ops.push(Op::Union(2, 3));
         ops.push(Op::Union(0, 1));
+    }
+    ops
+}
+
+/// two invocations of one class over *different* slot sets that agree in every cheap summary (same size, same sum and same
+/// xor of the slot numbers: `{s, s+3d}` and `{s+d, s+2d}`): nothing was asserted, they must not compare equal
+pub fn gen_sumxor(rng: &mut Rng) -> Vec<Op> {
+    let (base, d) = [(0u32, 4u32), (8, 4), (2, 4), (16, 4), (0, 8)][rng.below(5)];
+    let (s0, s1, s2, s3) = (base, base + d, base + 2 * d, base + 3 * d);
+    let op = if rng.chance(1, 2) { 7 } else { 11 };
+    let mut ops = vec![Op::Add(leaf(op, &[s0, s3])), Op::Add(leaf(op, &[s1, s2]))];
+    if rng.chance(1, 2) {
+        ops.push(Op::Add(un(13, leaf(op, &[s0, s3]))));
+        ops.push(Op::Add(un(13, leaf(op, &[s1, s2]))));
+    }
+    if rng.chance(1, 2) {
+        // an unrelated equation, so that the history has a union
+        let n = ops.len();
+        ops.push(Op::Add(leaf(10, &[s0])));
+        ops.push(Op::Add(un(13, leaf(10, &[s0]))));
+        ops.push(Op::Union(n, n + 1));
     }
     ops
 }
